@@ -1,8 +1,31 @@
 //! small manual probes (not part of any registered check)
 use crate::common::*;
 use std::io::Write;
-pub const KINDS: &[&str] = &["probe-h1", "probe-edit"];
+pub const KINDS: &[&str] = &["probe-h1", "probe-edit", "probe-k2"];
 pub fn run(kind: &str, _ctx: &Ctx, out: &mut dyn Write) {
+    if kind == "probe-k2" {
+        // the two failing inputs of repo_patches/F21-cursor-per-model.patch (finding K2)
+        let big = vec!["t 1 0".to_string()];
+        let small: Vec<String> = ["o 1 0", "t 2 0", "1 2 1 0", "1 2 -1 2 0"].iter().map(|x| x.to_string()).collect();
+        let mut a = load(&big, Some(3)).unwrap();
+        let mut b = load(&small, Some(2)).unwrap();
+        writeln!(out, "A: enum l 5 => {:?}", guarded(|| a.handle_stream_msg("enum l 5"))).unwrap();
+        writeln!(out, "B: enum     => {:?}", guarded(|| b.handle_stream_msg("enum"))).unwrap();
+        crate::cnfc::register();
+        let p = std::env::temp_dir().join(format!("probe-k2-{}.cnf", std::process::id()));
+        crate::cnfc::write_dimacs(&p, &vec![], 2);
+        let r = guarded(|| {
+            let mut d = ddnnife::Ddnnf::from_file(&p, None);
+            let mut log = Vec::new();
+            for line in ["enum l 3", "clause-update add 1 0 2", "enum"] {
+                log.push(format!("{} => {:?}", line, guarded(|| d.handle_stream_msg(line))));
+            }
+            log
+        });
+        let _ = std::fs::remove_file(&p);
+        writeln!(out, "session on 'p cnf 2 0': {:?}", r).unwrap();
+        return;
+    }
     if kind == "probe-edit" {
         // PROBE_FILE = nnf file, PROBE_N = features, PROBE_LIT = unit clause added incrementally
         use ddnnife::parser::intermediate_representation::ClauseApplication;
